@@ -86,7 +86,7 @@ func TestC09(t *testing.T) {
 		hasGlobal := map[int]bool{}
 		wantDigit := map[int]bool{}
 		// build libs from the last to the first so that callee signatures are known
-			pubs := map[int][]string{}
+		pubs := map[int][]string{}
 		for i := nlibs; i >= 0; i-- {
 			f := &ts.File{}
 			rel := func(j int) string {
